@@ -57,16 +57,21 @@ claim("C17",
       "assignment per included symbol assignment in document order, EXTERN+ASSERT(DEFINED) per included required symbol, one ASSERT per included "
       "assert; gp_position — a gp_info _gp sits after both start alignments and directly before the group's start symbol iff included and naming "
       "that section; hardcoded_gp; no_gp_in_partial_scripts. Tie to the code: byte-equal outputs, and the Lean predicate C17.holds evaluated on the "
-      "implementation's own script text (top-level statements, number/form/position of _gp definitions, none in partial sub-scripts). The "
-      "link-time meaning of EXTERN/ASSERT/PROVIDE is GNU ld's and is exercised only by the ld-lab runs (partial).",
+      "implementation's own script text (top-level statements, number/form/position of _gp definitions, none in partial sub-scripts). Image theorem "
+      "image_gp_value (over the Lean linker semantics Slinkyv.Ld, validated against GNU ld on every linked case): behind the group's statements "
+      "_gp holds the group start (after both start alignments) plus offset, 32-bit. The link-time meaning of EXTERN/ASSERT/PROVIDE is GNU ld's and "
+      "is exercised only by the ld-lab runs (partial).",
       "Lean 4 proof over the writer model + differential correspondence + text predicate on implementation outputs", "DESIGN.md §8 C17")
 claim("C18",
       "Lean theorem C18.tail (Props/C18.lean): end_sections — shared by multi-segment, single-segment and partial sub-scripts — writes, "
       "ignoring blank lines, the class sizes, one single-entry section per sections_allowlist element, one per sections_allowlist_extra element, "
       "then a /DISCARD/ block iff wildcard or non-empty denylist (denylist patterns, then *(*) iff wildcard), then the closing brace; so the "
       "discard block is last. Tie to the code: byte-equal outputs on the full lattice of the four settings x script kinds and random documents, and "
-      "the Lean predicate C18.holds on the implementation's script texts (prescribed tail present, nothing tail-like earlier). Survival/discard in "
-      "the linked image is GNU ld's first-match rule, exercised by ld-lab only (partial).",
+      "the Lean predicate C18.holds on the implementation's script texts (prescribed tail present, nothing tail-like earlier). Image theorems (over "
+      "the Lean linker semantics Slinkyv.Ld, validated against GNU ld on every linked case): image_allowlisted_survive (a single-entry section "
+      "places every still-free input section of that name in an output section of that name and takes nothing a segment placed) and "
+      "image_discard_only_unplaced (a /DISCARD/ pattern takes exactly the matching free input sections, all free ones for *(*), never a placed "
+      "one); survival/discard on the real ELF is checked by ld-lab on the linked cases.",
       "Lean 4 proof over the writer model + differential correspondence + text predicate on implementation outputs", "DESIGN.md §8 C18")
 
 claim("C15",
@@ -74,9 +79,11 @@ claim("C15",
       "transitivity), sortBy_perm and sectionsToEmitHere_perm show that the sections a file contributes to a group do not depend on the order in "
       "which its section_order map is visited, emitEntry_perm lifts this through the recursive emitter for every nesting of groups (the model "
       "has no other iteration over a hash-based field: all others are only looked up); optsOfList_perm / generate_option_order: distinct options "
-      "in any order build the same map, hence the same outputs. The lift of emitEntry_perm to whole documents is a congruence not yet proved. "
+      "in any order build the same map, hence the same outputs; generate_section_order_independent lifts this to whole documents: two parsed "
+      "documents that differ only in the visiting order of any section_order map generate identical outputs in both modes. "
       "Tie to the code and the run-time part a theorem cannot exhibit: every case is generated 3x in one process, once in each of two fresh "
-      "processes (fresh hash seeds) and with the options in two other orders; all outputs must be byte-identical.",
+      "processes (fresh hash seeds), with the options in two other orders, and from one parsed Document reused for generations with other option "
+      "values in between; all outputs must be byte-identical.",
       "Lean 4 proof of order independence (total order + permutation) + multi-process re-generation", "DESIGN.md §8 C15")
 claim("C16",
       "Lean theorem accept_iff_valid (Props/C16.lean): for every canonical value tree, parsing succeeds iff the tree is well typed for the nine "
@@ -111,7 +118,14 @@ claim("C20",
       "file system are outside the model (partial).",
       "Lean 4 proof over an abstract file-system model + differential runs of the real CLI binary", "DESIGN.md §8 C20")
 
-IMG = " Image clauses: the implementation's script is linked with GNU ld 2.40 (-m elf_i386) over synthetic objects with one marker symbol per (file, member, input section) and random sizes/alignments on a third of the cases (and on every case once a correspondence breaks), and the clause is evaluated on the real ELF (nm, readelf); this part is sampled, not proved (no Lean semantics of the linker yet)."
+IMG = (" Image clauses: stated and proved over Slinkyv.Ld, an executable Lean semantics of GNU ld for exactly the statements slinky writes "
+       "(location counter, symbols, output sections with explicit/implicit address, SUBALIGN, NOLOAD, first-match input placement, pads, ALIGN, "
+       "MAX, SIZEOF, forward ADDR, single-entry sections, /DISCARD/, repeated evaluation); the semantics is a model of the linker and is tied to "
+       "the real one on every run: each linked case (a third of the cases, and every case once a correspondence breaks) is linked with GNU ld 2.40 "
+       "(-m elf_i386) over synthetic objects with one marker symbol per (file, member, input section) and random sizes/alignments, the clause is "
+       "evaluated on the real ELF (nm, readelf, link map), and every symbol value, output-section address/size and input-section address of the "
+       "real link is compared with what the Lean semantics computes for the same script and objects (ldsem_fidelity in the evidence). Outside the "
+       "semantics (reported as such): segments without allocatable sections, orphan placement, output sections that end up empty without a symbol.")
 claim("C01",
       "Lean theorems (Props/C01.lean, by induction on the recursion bound of the emitter): object_placed_once / archive_placed_once (an included "
       "plain entry contributes exactly one statement per section: its own path under the current base, that section, KEEP per its effective "
@@ -119,21 +133,22 @@ claim("C01",
       "section_order and sub-groups do, an entry only ever names its own path) — the general exactly-once statement with section_order and "
       "sub-groups is not proved; it is the declarative specification C01.expected (every configured section of every included leaf, once, in the "
       "group loc(c) = slot(dest c)), which is evaluated as a multiset equality on the implementation's ordinary, single-segment and partial "
-      "scripts on every case." + IMG,
+      "scripts on every case. Image theorem image_placed_inside_segment: everything the statements of an output section of a segment place lies inside that section's address range and in no other section, for every object table and link state." + IMG,
       "Lean 4 proofs about the emitter (partial) + declarative placement specification evaluated on implementation scripts + real links", "DESIGN.md §8 C01")
 claim("C02",
       "Lean theorems (Props/C02.lean): segments_in_document_order, groups_follow_the_list, entries_in_file_order, subgroups_follow_lead, "
       "moved_sections_sorted (with C15.sectionsToEmitHere_perm), plus C01.group_is_concatenation for depth-first order and "
       "C03.segment_statements for allocatable-before-noload. The ordering rules are also evaluated as invariants (C02.holds) on the "
       "implementation's scripts: groups in list order, statements along the depth-first file list, pads/offsets present exactly in their "
-      "section's group, per-slot (position, name) order, sub-group sections after their lead." + IMG,
+      "section's group, per-slot (position, name) order, sub-group sections after their lead. Image theorem image_addresses_follow_statements: along the statements of an output section each placed input section ends before the next one starts." + IMG,
       "Lean 4 proofs about the emitter + ordering invariants evaluated on implementation scripts + real links", "DESIGN.md §8 C02")
 claim("C03",
       "Lean theorems (Props/C03.lean): header_address (priority fixed_vram / fixed_symbol / follows_segment end / class start / none), "
       "address_fields_exclusive for parsed segments, section_headers (allocatable part with the address request and AT(ROM start), noload part "
       "without address), segment_statements (VRAM start symbol = ADDR(.seg) written before, VRAM end after both end alignments), "
-      "single_segment_start. What these statements mean in the image (start = requested address, noload follows, end rounded up) is GNU ld's "
-      "semantics and is checked on real links only." + IMG,
+      "single_segment_start. Image theorems image_segment_start / image_noload_follows / image_segment_vram: the allocatable output section is recorded "
+      "at the value of the requested address expression, or at the location counter rounded up to the start alignment and the alignment of its "
+      "contents; the noload part lies behind it; the VRAM end symbol is the location counter behind the noload part rounded up to the end alignment." + IMG,
       "Lean 4 proofs of the emitted address statements + real-link oracle for their meaning", "DESIGN.md §8 C03")
 claim("C04",
       "Lean theorems (Props/C04.lean): sections_rom — in every multi-segment script the statements touching __romPos together with all output "
@@ -141,27 +156,32 @@ claim("C04",
       "header with AT(ROM_START), (NOLOAD) header without AT, __romPos += SIZEOF(allocatable part), [end alignment], ROM_END = __romPos (nothing "
       "inside an output section, no class statement, no tail statement touches it; noload sizes are never added); run_chain — executing these "
       "statements yields, for every size the link may give SIZEOF, exactly the documented recurrence (start = previous end rounded up, end = "
-      "start + size rounded up) and loads each allocatable part at its ROM start. That GNU ld evaluates the statements as the small machine "
-      "does is validated on real links." + IMG,
+      "start + size rounded up) and loads each allocatable part at its ROM start. Image theorem image_rom_recurrence: linking `__romPos = 0` and what add_segment writes for all "
+      "segments leaves the ROM counter at the documented recurrence over the emitted segments, with the sizes of the `.seg` output sections the "
+      "link recorded; noload parts never enter." + IMG,
       "Lean 4 proof: ROM view of the generated script + recurrence over a ROM machine; real-link validation", "DESIGN.md §8 C04")
 claim("C05",
       "Lean theorems (Props/C05.lean): section_symbols_defined, kind_symbols_defined, segment_symbols_defined (every family has start, end and "
       "size = ABSOLUTE(end - start), named by the style table; C10.class_sizes for classes; C13 for the header), kind_start_precedes_header "
-      "(the known finding, proved), and the naming table checked on concrete names. Start <= end and the bracket clauses are properties of the "
-      "linked image, evaluated on real links; the known finding KF-C05-kind-start-before-header is reported as such." + IMG,
+      "(the known finding, proved), and the naming table checked on concrete names. Image theorem image_group_symbols: for every object table and link state, a group's "
+      "start symbol <= end symbol, size = end - start (32-bit), and the input sections its statements placed lie between them in the open output "
+      "section. The known finding KF-C05-kind-start-before-header is reported as such." + IMG,
       "Lean 4 proofs of completeness/naming/size statements + real-link oracle for values", "DESIGN.md §8 C05")
 claim("C09",
       "Lean theorems (Props/C09.lean): arithmetic of ALIGN (alignUp_dvd, alignUp_ge, align_both: after two successive alignments by a | b or "
       "b | a — in particular powers of two — both hold), group_start / group_end (both alignments precede the start / end symbol when both are "
       "given), absent_adds_nothing (no ALIGN and no SUBALIGN when the options are absent or null), with C04.sections_rom and "
-      "C03.segment_statements for the segment-level alignments. That `. = ALIGN(., n)` inside an output section is relative to the section start "
-      "is GNU ld's behaviour, checked on real links." + IMG,
+      "C03.segment_statements for the segment-level alignments. Image theorems image_group_alignment (group start / end, measured from the start of the output section, are multiples "
+      "of the section's alignment entry, and of the segment-wide one when one divides the other) and image_subalign (every placed input section "
+      "starts at a multiple of subalign)." + IMG,
       "Lean 4 proofs of placement and arithmetic of alignment statements + real-link oracle", "DESIGN.md §8 C09")
 claim("C10",
       "Lean theorems (Props/C10.lean): missing_class_is_an_error / excluded_segment_is_silent, first_member_opens (start = literal | symbol | 0 "
       "then one MAX per followed class; end = 0), later_member_is_silent, emitted_grows (a class is opened iff an emitted segment names it), "
       "member_statements (header address = class start; END = MAX(END, seg end) after the member), class_sizes (one SIZE = END - START per opened "
-      "class, none for the others). Values in the image are checked on real links." + IMG,
+      "class, none for the others). Image theorems: image_class_prologue (start symbol = fixed_vram | value of fixed_symbol | largest end symbol among "
+      "the followed classes, end symbol = 0), image_member_starts_at_class_start, image_class_end_accumulates (END = max(END, member VRAM end)). Known "
+      "finding KF-C10-followed-member-listed-later: a member of a followed class listed after the follower's first member is not seen by the follower." + IMG,
       "Lean 4 proofs of the class statements + real-link oracle for values", "DESIGN.md §8 C10")
 claim("C11",
       "Lean theorems (Props/C11.lean): one_script_per_emitted_segment, same_statements (the emitter does not read the two flags that distinguish a "
